@@ -211,7 +211,7 @@ def run_sac(sc):
     cfg = base_cfg("sac", sc, warmlearn=warm, warmact=warm, explore_only_in_warmup=True, policy_probe=True, ret_applicable=True, ulpk=2, check_bounds=False,
                    trained=["policy", "q", "alpha"], targets=["q_target"], segment="add", rules=rules)
     ret = None if res is None else res.global_step
-    return finish(rec, "sac", sc, cfg, returned=ret, final=final_digests(policy=policy, q=q, q_target=qtgt, alpha=ent._alpha), error=_close(w, err), buffer=buf)
+    return finish(rec, "sac", sc, cfg, returned=ret, final=final_digests(policy=policy, q=q, q_target=qtgt, alpha=ent._alpha), error=_close(w, err), buffer=buf, result=res)
 
 
 # ------------------------------------------------------------------ TD7
@@ -290,7 +290,7 @@ def _td7(name, sc, use_checkpoints):
                    # coordinator: TD7's evaluation checkpoint is (fixed embedding, actor), copied together
                    copy_groups=[[["actor_checkpoint", "policy"], ["fixed_embedding_checkpoint", "fixed_embedding"]]] if use_checkpoints else [])
     ret = None if res is None else res.global_step
-    return finish(rec, name, sc, cfg, returned=ret, final=final_digests(**mods), error=_close(w, err), buffer=buf)
+    return finish(rec, name, sc, cfg, returned=ret, final=final_digests(**mods), error=_close(w, err), buffer=buf, result=res)
 
 
 @routine("td7")
@@ -355,4 +355,4 @@ def run_mrq(sc):
                    trained=["policy_with_encoder", "encoder", "policy", "q"], targets=["policy_with_encoder_target", "encoder_target", "q_target"],
                    segment="add", rules=rules)
     ret = None if res is None else res.global_step
-    return finish(rec, "mrq", sc, cfg, returned=ret, final=final_digests(**mods), error=_close(w, err))
+    return finish(rec, "mrq", sc, cfg, returned=ret, final=final_digests(**mods), error=_close(w, err), result=res)
